@@ -5,9 +5,9 @@ cd "$(dirname "$0")/.."
 f="$1"; shift
 name=$(basename "$f" .rs)
 out=$(python3 tools/scratch.py --test "$f" "$@" -- cargo test --offline --test "$name" 2>&1)
-if echo "$out" | grep -q "^WITNESS"; then
-  echo "$out" | grep "^WITNESS" | cut -c1-600 | head -20
+if printf "%s\n" "$out" | grep -q "^WITNESS"; then
+  printf "%s\n" "$out" | grep "^WITNESS" | cut -c1-600 | head -20
   exit 3
 fi
-echo "$out" | grep -E "^test result|^error" | head -5
+printf "%s\n" "$out" | grep -E "^test result|^error" | head -5
 exit 0
